@@ -1,7 +1,10 @@
 package env
 
 import (
+	"bufio"
+	"crypto/tls"
 	"fmt"
+	"io"
 	"net/http"
 	"sort"
 	"strings"
@@ -137,4 +140,52 @@ func FmtMetrics(m map[string]float64) string {
 		fmt.Fprintf(&sb, "%s=%g ", k, m[k])
 	}
 	return sb.String()
+}
+
+// DoTLS performs one request over TLS with a goroutine-backed client (crypto/tls needs a
+// blocking net.Conn) and runs the simulation until the response head (and, for ordinary
+// responses, the body) has been read.  headOnly stops after the head: upgrade and legacy
+// accept responses have no delimited body.
+func (w *World) DoTLS(r *HTTPReq, headOnly bool) *HTTPResult {
+	res := &HTTPResult{}
+	done := false
+	raw := r.Bytes()
+	go func() {
+		var out HTTPResult
+		defer func() { w.S.Call("tlsdone "+r.Name, func() { *res, done = out, true }) }()
+		c, err := w.S.Dial("tcp", r.From, w.GW.Addr, 0)
+		if err != nil {
+			out.Err = err.Error()
+			return
+		}
+		defer c.Close()
+		if e, ok := c.(*sim.End); ok {
+			w.S.Call("opaque "+r.Name, func() { e.Opaque, e.Peer.Opaque = true, true })
+		}
+		tc := tls.Client(c, ClientTLS())
+		if err := tc.Handshake(); err != nil {
+			out.Err = "tls: " + err.Error()
+			return
+		}
+		if _, err := tc.Write(raw); err != nil {
+			out.Err = err.Error()
+			return
+		}
+		br := bufio.NewReader(tc)
+		resp, err := http.ReadResponse(br, nil)
+		if err != nil {
+			out.Err = err.Error()
+			out.EOF = true
+			return
+		}
+		out.Status, out.Header = resp.StatusCode, resp.Header
+		if !headOnly && resp.StatusCode != 101 {
+			out.Body, _ = io.ReadAll(resp.Body)
+		}
+	}()
+	w.S.Run(func() bool { return done }, 40000, 60*time.Second)
+	if !done {
+		res.Timeout = true
+	}
+	return res
 }
